@@ -13,6 +13,7 @@ type Scenario struct {
 	Gen      func(r *simrt.Rand, tier string, idx uint64) *Plan
 	Main     func(w *World)
 	Check    func(w *World, run *simrt.Run)
+	JudgesPanics bool
 }
 
 var Scenarios = map[string]*Scenario{}
